@@ -26,6 +26,9 @@ def run(tier):
         Obligation('evolver_baseline', 'harness/c16.py', 'h_evolver_baseline', timeout=600,
                    what='Evolver(database_name=D) on two real SQLite databases: the baseline signature comes from D\'s own version table (or is installed on D when missing) and the other database is neither consulted nor modified; discrete scenario, run concretely per path (the solver only enumerates the 8 scenarios)',
                    bounds='2 aliases x stored baseline present/absent on each database', functions=['evolve/evolver.py Evolver.__init__', 'models.py VersionManager.current_version']),
+        Obligation('unapplied', 'harness/c16.py', 'h_unapplied', timeout=600,
+                   what='get_unapplied_evolutions / get_applied_evolutions(app, database) on two real SQLite databases holding symbolic subsets of the recorded labels: pending = sequence minus what is recorded on the evolved database (not on the other one, not another app\'s same-named label); discrete scenarios run concretely per path',
+                   bounds='3 labels recorded or not on each of 2 databases (64 combinations) x 2 aliases', functions=['utils/evolutions.py get_unapplied_evolutions, get_applied_evolutions']),
     ]
     return run_check('C16', obs, tier,
                      assumptions=['is_mutable/task_filter/delete_app: get_database_for_model_name is replaced by a symbolic routing table (2 aliases, 3 models)',
